@@ -63,22 +63,22 @@ pub(crate) fn cwidh(c: char) -> Unit {
 
 fn uwidth(s: &str) -> Unit {
     use unicode_width::UnicodeWidthStr;
-    Unit::try_from(s.width()).unwrap()
+    Unit::try_from(s.width()).unwrap_or(Unit::MAX)
 }
 
 fn wcwidth(s: &str) -> Unit {
-    let mut width = 0;
+    let mut width: Unit = 0;
     for c in s.chars() {
-        width += cwidh(c);
+        width = width.saturating_add(cwidh(c));
     }
     width
 }
 
 const ZWJ: char = '\u{200D}';
 fn no_zwj(s: &str) -> Unit {
-    let mut width = 0;
+    let mut width: Unit = 0;
     for x in s.split(ZWJ) {
-        width += uwidth(x);
+        width = width.saturating_add(uwidth(x));
     }
     width
 }
